@@ -19,6 +19,7 @@ import (
 	"runtime"
 	"sort"
 	"strings"
+	"time"
 	"unsafe"
 )
 
@@ -91,6 +92,7 @@ type thread struct {
 	spinCount int
 	spinOps   int
 	ops       int // hooked operations performed (memory accesses and sync points)
+	abort     bool
 }
 
 type access struct {
@@ -129,6 +131,8 @@ type sched struct {
 	objs       map[unsafe.Pointer]*SyncObj
 	inSpinEval bool
 	truncated  bool
+	aborting   bool
+	chans      map[uintptr]*chanModel
 	races      []string
 	raceSet    map[string]bool
 	failure    string
@@ -175,7 +179,7 @@ func Run(prefix []int, maxSteps int, body func()) Result {
 		main.started = true
 		defer func() {
 			if p := recover(); p != nil {
-				if _, ok := p.(abortExec); !ok {
+				if _, ok := p.(abortExec); !ok && !sc.aborting {
 					sc.failure = fmt.Sprintf("panic in scenario body: %v", p)
 				}
 			}
@@ -183,14 +187,39 @@ func Run(prefix []int, maxSteps int, body func()) Result {
 			main.h = main.h.fold('D')
 			sc.yield <- main.id
 		}()
+		if main.abort {
+			return
+		}
 		body()
 	}()
 	sc.loop()
+	sc.abortParked()
 	s = nil
 	return Result{Points: sc.points, Races: sc.races, Failure: sc.failure, Steps: sc.steps, Threads: len(sc.threads), SyncOps: sc.nsync, MemOps: sc.nmem, Signature: string(sc.sig), Truncated: sc.truncated}
 }
 
 type abortExec struct{}
+
+// abortParked ends the goroutines that are still parked when the execution is
+// over (deadlocked threads, idle workers, threads cut off by a failure): each
+// is resumed with its abort flag set and leaves through runtime.Goexit, so
+// deferred calls run; while aborting every hook returns at once.
+func (sc *sched) abortParked() {
+	sc.aborting = true
+	for _, t := range sc.threads {
+		if t.done {
+			continue
+		}
+		t.abort = true
+		select {
+		case t.resume <- struct{}{}:
+			<-sc.yield
+		case <-time.After(2 * time.Second):
+			// not parked where the scheduler can reach it (blocked in an
+			// unmodelled primitive): left behind
+		}
+	}
+}
 
 func (sc *sched) enabled() []int {
 	var out []int
@@ -230,7 +259,10 @@ func (sc *sched) loop() {
 					alldone = false
 				}
 			}
-			if !alldone && sc.failure == "" {
+			// the scenario body (thread 0) not returning is a deadlock; goroutines
+			// the library leaves parked for good after the body has returned (an
+			// idle worker pool waiting on its channel) are not
+			if !alldone && !sc.threads[0].done && sc.failure == "" {
 				var stuck []string
 				for _, t := range sc.threads {
 					if !t.done {
@@ -239,8 +271,6 @@ func (sc *sched) loop() {
 				}
 				sc.failure = "deadlock: threads " + strings.Join(stuck, ",") + " are blocked forever"
 			}
-			// release blocked goroutines so they do not leak: they are parked on
-			// resume channels; abandon them (a fresh scheduler is built per run)
 			return
 		}
 		choice := 0
@@ -310,15 +340,25 @@ func (sc *sched) stateKey() [2]uint64 {
 // yieldPoint hands control to the scheduler and waits to be resumed.
 func yieldPoint(what string) {
 	sc := s
+	if sc.aborting {
+		return
+	}
 	t := sc.cur
 	lastWhat = what
 	sc.yield <- t.id
 	<-t.resume
+	if t.abort {
+		sc.cur = t
+		runtime.Goexit()
+	}
 }
 
 // blockUntil parks the current thread until cond holds.
 func blockUntil(what string, cond func() bool) {
 	sc := s
+	if sc.aborting {
+		return
+	}
 	t := sc.cur
 	for !cond() {
 		t.h = t.h.fold('B')
@@ -326,6 +366,10 @@ func blockUntil(what string, cond func() bool) {
 		lastWhat = what + " (blocked)"
 		sc.yield <- t.id
 		<-t.resume
+		if t.abort {
+			sc.cur = t
+			runtime.Goexit()
+		}
 	}
 	t.blocked = nil
 }
@@ -337,6 +381,9 @@ func Go(f func()) {
 	sc := s
 	if sc == nil {
 		go f()
+		return
+	}
+	if sc.aborting {
 		return
 	}
 	sc.nsync++
@@ -351,7 +398,7 @@ func Go(f func()) {
 		<-t.resume
 		defer func() {
 			if p := recover(); p != nil {
-				if _, ok := p.(abortExec); !ok && sc.failure == "" {
+				if _, ok := p.(abortExec); !ok && sc.failure == "" && !sc.aborting {
 					sc.failure = fmt.Sprintf("panic in goroutine %d: %v", t.id, p)
 				}
 			}
@@ -359,6 +406,9 @@ func Go(f func()) {
 			t.h = t.h.fold('D')
 			sc.yield <- t.id
 		}()
+		if t.abort {
+			return
+		}
 		f()
 	}()
 }
